@@ -8,7 +8,7 @@ use serde_json::json;
 use std::collections::BTreeMap;
 
 /// rules files that deliberately share variable names, rule names and meanings
-pub const RULES: [&str; 8] = [
+pub const RULES: [&str; 9] = [
     "let x = a\nrule r { %x == 1 }\nrule s when r { b exists }\n",
     "let x = b\nrule r { %x == 1 }\nrule s {\n  r\n}\n",
     "let x = 1\nrule r { a == %x }\nrule t {\n  not r\n}\n",
@@ -17,8 +17,10 @@ pub const RULES: [&str; 8] = [
     "let x = a\nrule r {\n  let x = b\n  %x == 1\n}\nrule v { %x exists }\n",
     "let y = a[*]\nrule r { some %y == 1 }\nrule s when %y !empty {\n  %y exists\n  r\n}\n",
     "rule s { b == 1 }\nrule r when s { a == 2 }\nrule w {\n  r\n}\n",
+    // keys spelled in another convention than the documents use (each document needs another conversion)
+    "rule r { bucket_name == 1 }\nrule k { some_key exists }\n",
 ];
-pub const DOCS: [&str; 6] = ["{\"a\":1,\"b\":1}", "{\"a\":1,\"b\":2}", "{\"a\":2,\"b\":1}", "{\"a\":[{\"b\":1}],\"b\":1}", "{\"b\":1}", "{\"a\":[1]}"];
+pub const DOCS: [&str; 8] = ["{\"a\":1,\"b\":1}", "{\"a\":1,\"b\":2}", "{\"a\":2,\"b\":1}", "{\"a\":[{\"b\":1}],\"b\":1}", "{\"b\":1}", "{\"a\":[1]}", "{\"bucketName\":1,\"SomeKey\":1,\"a\":1}", "{\"BucketName\":1,\"someKey\":2,\"b\":1}"];
 
 fn ordered_selections(n: usize, max: usize) -> Vec<Vec<usize>> {
     fn rec(cur: &mut Vec<usize>, n: usize, max: usize, out: &mut Vec<Vec<usize>>) {
@@ -109,8 +111,9 @@ enum Mode {
     PayloadPlain,
     PayloadStruct,
     SarifArgs,
+    StructSameBase,
 }
-const MODES: [Mode; 9] = [Mode::SarifArgs, Mode::PlainArgs, Mode::StructArgs, Mode::JunitArgs, Mode::PlainDirAlpha, Mode::PlainDirMtime, Mode::StructDirAlpha, Mode::PayloadPlain, Mode::PayloadStruct];
+const MODES: [Mode; 10] = [Mode::StructSameBase, Mode::SarifArgs, Mode::PlainArgs, Mode::StructArgs, Mode::JunitArgs, Mode::PlainDirAlpha, Mode::PlainDirMtime, Mode::StructDirAlpha, Mode::PayloadPlain, Mode::PayloadStruct];
 
 fn set_mtime(path: &str, secs: u64) {
     if let Ok(f) = std::fs::OpenOptions::new().write(true).open(path) {
@@ -126,8 +129,11 @@ fn run_batch(rs: &[usize], ds: &[usize], mode: Mode, alone_p: &[Vec<Option<PairR
     let mut dpaths = vec![];
     for (p, k) in rs.iter().enumerate() {
         // in mtime mode the alphabetical order is reversed with respect to the time order
-        let name = if mode == Mode::PlainDirMtime { format!("{}_F{}.guard", 9 - p, k) } else { format!("{}_F{}.guard", p, k) };
+        let name = if mode == Mode::PlainDirMtime { format!("{}_F{}.guard", 9 - p, k) } else if mode == Mode::StructSameBase { format!("d{}/same.guard", p) } else { format!("{}_F{}.guard", p, k) };
         let path = format!("{}/{}", rdir, name);
+        if let Some(parent) = std::path::Path::new(&path).parent() {
+            std::fs::create_dir_all(parent).ok();
+        }
         std::fs::write(&path, RULES[*k]).unwrap();
         set_mtime(&path, p as u64 * 10);
         rpaths.push((path, name));
@@ -157,7 +163,7 @@ fn run_batch(rs: &[usize], ds: &[usize], mode: Mode, alone_p: &[Vec<Option<PairR
             argv.extend(sv(&["-S", "all"]));
             (true, false)
         }
-        Mode::StructArgs => {
+        Mode::StructArgs | Mode::StructSameBase => {
             explicit(&mut argv);
             argv.extend(sv(&["--structured", "-o", "json", "-S", "none"]));
             (false, false)
